@@ -85,7 +85,8 @@ func (m *PositionMapper) LineUTF16Len(line int) int {
 	if line < 0 || line >= len(m.lines) {
 		return 0
 	}
-	return UTF16Len(m.lines[line])
+	// A trailing CR belongs to the CRLF line terminator, not to the line's content.
+	return UTF16Len(strings.TrimSuffix(m.lines[line], "\r"))
 }
 
 func (m *PositionMapper) LineRuneLen(line int) int {
